@@ -406,8 +406,114 @@ def icdf_history_task(c):
     return out
 
 
+# ---- evaluation histories: evaluate, modify the model object in place, evaluate again ----------
+
+def _evaluate(model, fresh, pts, v, with_cdf):
+    """the same evaluations on the model under test (single points FIRST and LAST, arrays in between)
+    and on a freshly constructed model with the same parameters; references from the current objects
+    (array calls with >= 2 rows) and from quadrature over the fresh objects"""
+    P = np.asarray(pts, dtype=float)
+    with warnings.catch_warnings():
+        warnings.simplefilter("ignore")
+        vals = [float(np.asarray(model.pdf([float(t) for t in P[0]])).reshape(-1)[0])]     # single point, list
+        vals.append(float(np.asarray(model.pdf(np.array(P[1]))).reshape(-1)[0]))            # single point, row
+        vals.extend(float(t) for t in np.asarray(model.pdf(P)).reshape(-1))                  # array
+        ints = []
+        mp1 = float(np.asarray(model.marginal_pdf(np.array([v[0]]), 1)).reshape(-1)[0])
+        mp2 = np.asarray(model.marginal_pdf(np.array(v), 1), dtype=float).reshape(-1)
+        cd = float(np.asarray(model.cdf([list(P[0])])).reshape(-1)[0]) if with_cdf else None
+        vals.append(float(np.asarray(model.pdf([float(t) for t in P[0]])).reshape(-1)[0]))  # single point again (last)
+        # reference: factorised product from the model's CURRENT objects (arrays, declared structure)
+        ref = ref_product(model, P)
+        refs = [ref[0], ref[1]] + list(ref) + [ref[0]]
+        # a freshly constructed model with the same current parameters
+        fv = [float(np.asarray(fresh.pdf([float(t) for t in P[0]])).reshape(-1)[0]),
+              float(np.asarray(fresh.pdf(np.array(P[1]))).reshape(-1)[0])]
+        fv.extend(float(t) for t in np.asarray(fresh.pdf(P)).reshape(-1))
+        fv.append(fv[0])
+        pcf = Pieces(fresh)
+        fm2 = np.asarray(fresh.marginal_pdf(np.array(v), 1), dtype=float).reshape(-1)
+        ints.append(dict(what="marginal_pdf", val=Qc(mp1, 1e8, -BIG, BIG), ref=Qc(pcf.marginal(1, v[0], False), 1e8, -BIG, BIG),
+                         fresh=Qc(fm2[0], 1e8, -BIG, BIG)))
+        for k in range(len(v)):
+            ints.append(dict(what="marginal_pdf", val=Qc(mp2[k], 1e8, -BIG, BIG),
+                             ref=Qc(pcf.marginal(1, v[k], False), 1e8, -BIG, BIG), fresh=Qc(fm2[k], 1e8, -BIG, BIG)))
+        if with_cdf:
+            fc = float(np.asarray(fresh.cdf([list(P[0])])).reshape(-1)[0])
+            ints.append(dict(what="cdf", val=Qc(cd, 1e9, -BIG, BIG), ref=Qc(pcf.joint_cdf(list(P[0])), 1e9, -BIG, BIG),
+                             fresh=Qc(fc, 1e9, -BIG, BIG)))
+    return dict(pdfrel=[rel15(a, float(b)) for a, b in zip(vals, refs)],
+                freshrel=[rel15(a, float(b)) for a, b in zip(vals, fv)], ints=ints), float(ref[0])
+
+
+def eval_history_task(c):
+    """construct -> pdf / marginal_pdf (/ cdf) at single points and arrays -> modify the model object in
+    place -> the same evaluations at the same points again; judged against the CURRENT objects"""
+    import copy
+    vc = import_virocon()
+    desc_a = M.describe(np.random.default_rng(c["seed"]), c["n_dim"], c["cond"], c["families"], c["sh"],
+                        spec=M.SPEC_SMOOTH)
+    model = M.from_description(vc, desc_a)
+    fresh_a = M.from_description(vc, desc_a)
+    pcs = Pieces(fresh_a)                      # point selection on a separate object
+    pts = [point_at(pcs, lv) for lv in c["levels"]]
+    v = [pts[0][1], pts[1][1]]
+    out = []
+    how = c["how"]
+    what = how + (f"[{c['entry']}]->{c['families_b'][c['entry']]}" if how == "replace-entry" else "")
+    try:
+        r1, ref_before = _evaluate(model, fresh_a, pts, v, c.get("with_cdf"))
+        out.append(dict(rec=dict(kind="history", exc="", **r1), key=f"eval-history first-evaluation {model_key(c)}",
+                        nontrivial=True, case=c, history="first-evaluation"))
+        with warnings.catch_warnings():
+            warnings.simplefilter("ignore")
+            desc_now = None
+            if how == "dep-parameters":        # dep.parameters["a"] = ... (item assignment on the dict)
+                for i in range(1, model.n_dim):
+                    if model.conditional_on[i] is not None:
+                        for dep in model.distributions[i].conditional_parameters.values():
+                            k0 = next(iter(dep.parameters))
+                            dep.parameters[k0] = dep.parameters[k0] * 1.3
+            elif how == "dep-fit":             # DependenceFunction.fit called directly
+                for i in range(1, model.n_dim):
+                    if model.conditional_on[i] is not None:
+                        for pname, dep in model.distributions[i].conditional_parameters.items():
+                            kind, co = desc_a["dims"][i]["deps"][pname]
+                            xs = np.linspace(0.2, 6.0, 25)
+                            target = M.FUNCS[kind](xs, *([co[0] * 1.3] + list(co[1:])))
+                            dep.fit(xs, np.asarray(target, dtype=float) + 0.0 * xs)
+            elif how == "set-attribute":
+                M.change_parameters(model)
+            elif how == "replace-entry":
+                k = c["entry"]
+                desc_b = M.describe(np.random.default_rng(c["seed"] + 5), c["n_dim"], c["cond"], c["families_b"],
+                                    c["sh"], spec=M.SPEC_SMOOTH)
+                model.distributions[k] = M.from_description(vc, desc_b).distributions[k]
+                desc_now = copy.deepcopy(desc_a)
+                desc_now["dims"][k] = copy.deepcopy(desc_b["dims"][k])
+                desc_now["families"][k] = desc_b["families"][k]
+                desc_now["shapes"][k] = desc_b["shapes"][k]
+            if desc_now is None:
+                desc_now = M.current_description(model, desc_a)
+        fresh_b = M.from_description(vc, desc_now)
+        r2, ref_after = _evaluate(model, fresh_b, pts, v, c.get("with_cdf"))
+        moved = ref_before > 0 and abs(ref_after - ref_before) > 1e-3 * ref_before
+        out.append(dict(rec=dict(kind="history", exc="", **r2),
+                        key=f"eval-history evaluation-after-{what} {model_key(c)}", nontrivial=bool(moved), case=c,
+                        history="after-modification"))
+    except Machinery:
+        raise
+    except Exception as e:  # noqa
+        if how == "dep-fit" and out:        # a failing curve fit is not the subject of this property
+            return out
+        out.append(dict(rec=dict(kind="history", exc=f"{type(e).__name__}: {e}"[:200], pdfrel=[], freshrel=[], ints=[]),
+                        key=f"eval-history evaluation-after-{what} {model_key(c)}", nontrivial=False, case=c,
+                        history="after-modification"))
+    return out
+
+
 def run_task(c):
-    return {"pdf": pdf_task, "integral": integral_task, "icdf": icdf_task,
+    return {"eval_history": eval_history_task, "pdf": pdf_task, "integral": integral_task, "icdf": icdf_task,
             "icdf_history": icdf_history_task}[c["task"]](c)
 
 
@@ -477,6 +583,20 @@ def make_tasks(ctx, cfgs):
             if k < 2:      # three nested levels of nquad: many minutes each, started first
                 slow.append(dict(b, task="integral", what="marginal_cdf", dim=1, levels=lv, heavy=True))
                 slow.append(dict(b, task="integral", what="cdf", levels=lv, heavy=True))
+    # evaluation histories on one model object
+    hows = ["dep-parameters", "dep-fit", "set-attribute", "replace-entry", "dep-parameters", "replace-entry"]
+    for k in range(ctx.pick(12, 48)):
+        cfg = cond2[(k * 3 + ctx.seed) % len(cond2)]
+        b = base(cfg, smooth=True)
+        t = dict(b, task="eval_history", how=hows[k % len(hows)], levels=[[0.5, 0.5], [0.8, 0.3], [0.2, 0.9], [0.95, 0.6]],
+                 with_cdf=(k % 6 == 0))
+        if t["how"] == "replace-entry":
+            t["entry"] = (k // 3) % 2
+            fb = list(b["families"])
+            if (k // 6) % 2 == 0:
+                fb[t["entry"]] = M.NONNEG[(M.NONNEG.index(fb[t["entry"]]) + 1 + k % 3) % len(M.NONNEG)]
+            t["families_b"] = fb
+        slow.append(t)
     # histories: query marginal_icdf, change the model object, query again
     for k in range(ctx.pick(4, 16)):
         cfg = cond2[(k * 5 + ctx.seed) % len(cond2)]
@@ -532,7 +652,7 @@ def judge(ctx, results, label):
                 detail = f"exc={rec['exc']} deviating kinds (rel 1e-15): {bad[:4]}"
                 key = f"{[b[0] for b in bad] or ''} {o['key']}" if clause in ("KindsAgree", "ResultShape") else o["key"]
             else:
-                detail = str({k: rec[k] for k in rec if k not in ("id", "kind")})
+                detail = str({k: rec[k] for k in rec if k not in ("id", "kind")})[:600]
                 key = o["key"]
             ctx.violation(clause, key, detail, replay=o["case"])
     ctx.log(f"{label}: {len(recs)} records judged, {sum(1 for r in recs if r['id'] in failing)} rejected")
@@ -559,6 +679,14 @@ def selftest(ctx, recs, failing):
         g = copy.deepcopy(good_int["marginal_pdf"]); g["val"] += 5000 + g["ref"] // 100; muts.append(("MarginalsMatch", g))
     if good_int["mass"]:
         g = copy.deepcopy(good_int["mass"]); g["val"] -= 100000; muts.append(("NormalisedToOne", g))
+    gh = dict(kind="history", exc="", pdfrel=[0, 3, -2], freshrel=[0, 0, 0],
+              ints=[dict(what="marginal_pdf", val=30000000, ref=30000010, fresh=30000000),
+                    dict(what="cdf", val=300000000, ref=300000100, fresh=300000000)])
+    g = copy.deepcopy(gh); g["pdfrel"][0] = -600000000; muts.append(("Factorises", g))
+    g = copy.deepcopy(gh); g["freshrel"][2] = 5000; muts.append(("SameAsFreshModel", g))
+    g = copy.deepcopy(gh); g["ints"][0]["fresh"] += 5000; muts.append(("SameAsFreshModel", g))
+    g = copy.deepcopy(gh); g["ints"][0]["val"] += 5000; g["ints"][0]["fresh"] += 5000; muts.append(("MarginalsMatch", g))
+    g = copy.deepcopy(gh); g["ints"][1]["val"] += 5000; g["ints"][1]["fresh"] += 5000; muts.append(("CdfMatches", g))
     muts.append(("IcdfInvertsCdf", dict(kind="icdf", p=500000000, F=520000000, n=100000)))
     muts.append(("IcdfInvertsCdf", dict(kind="icdf", p=500000000, F=500002000, n=0)))
     accept = dict(kind="icdf", p=500000000, F=510000000, n=100000, id=len(muts) + 1)   # inside the DKW radius
@@ -566,8 +694,12 @@ def selftest(ctx, recs, failing):
     for i, (cl, r) in enumerate(muts):
         r["id"] = i + 1
         sr.append(r)
+    accept["id"] = len(muts) + 1
+    gh["id"] = len(muts) + 2
     t = ctx.traces
-    f2 = ctx.validate("Trace_C06", "Trace_C06.cfg", sr + [accept])
+    f2 = ctx.validate("Trace_C06", "Trace_C06.cfg", sr + [accept, gh])
+    if gh["id"] in f2:
+        raise Machinery(f"selftest: a conforming history record was rejected: {f2[gh['id']]}")
     ctx.traces = t
     for cl, r in muts:
         if cl not in f2.get(r["id"], []):
@@ -584,7 +716,11 @@ def run(ctx):
                 "(2-D x4/x12, 3-D x1/x3), 9/30 points "
                 "per model (bulk, tails, below support, integer-valued) in 8 input kinds; integrals: conditional 2-D "
                 "models (and independent ones) at 2-4 probability-level points, 3-D marginal_pdf of dimensions 1 "
-                "and 2 (thorough also two 3-D cdf / marginal_cdf calls); marginal_icdf histories (query, edit parameters in place or "
+                "and 2 (thorough also two 3-D cdf / marginal_cdf calls); evaluation histories on one model object (pdf at single "
+                "points and arrays, marginal_pdf, cdf -> modify in place: dependence-function parameters dict, "
+                "DependenceFunction.fit, parameter attributes, replaced entry of model.distributions -> the same "
+                "evaluations again) judged against the factorised reference from the current objects and against a "
+                "freshly constructed model; marginal_icdf histories (query, edit parameters in place or "
                 "re-fit, query again) judged against the reference marginal cdf of the CURRENT parameters; "
                 "distinct = distinct (call, point, model); "
                 "non-trivial = reference value > 0 (pdf: and a dependence that varies with the given)")
@@ -620,7 +756,7 @@ def run(ctx):
     for r, o in zip(recs, meta):
         k = r["kind"] if r["kind"] != "integral" else r["what"] + ("/int" if r["isint"] else "")
         if o.get("history"):
-            k = "icdf/" + o["history"]
+            k = ("icdf/" if r["kind"] == "icdf" else "eval-history/") + o["history"]
         kinds[k] = kinds.get(k, 0) + 1
     ctx.notes["records_by_kind"] = kinds
     ctx.notes["integral_calls_dropped_for_time"] = dropped
@@ -629,8 +765,14 @@ def run(ctx):
     if dropped == len(slow):
         raise Machinery(f"none of the {len(slow)} integral calls finished within the budget")
     missing = [k for k in ("pdf", "cdf", "marginal_pdf", "marginal_cdf", "mass", "icdf", "marginal_pdf/int",
-                           "icdf/after-parameter-change", "icdf/after-refit") if not kinds.get(k)]
+                           "icdf/after-parameter-change", "icdf/after-refit", "eval-history/after-modification")
+               if not kinds.get(k)]
     ctx.notes["kinds_without_a_record"] = missing
+    nmoved = sum(1 for r, o in zip(recs, meta) if r["kind"] == "history" and o.get("history") == "after-modification"
+                 and o["nontrivial"])
+    ctx.notes["evaluation_histories_whose_modification_changed_the_density"] = nmoved
+    if dropped == 0 and nmoved < 6:
+        raise Machinery(f"vacuous: only {nmoved} evaluation histories changed the density at the repeated point")
     if missing and dropped == 0:
         raise Machinery(f"vacuous: no record of kind {missing} although no call was dropped")
     if missing:
